@@ -372,7 +372,17 @@ func (fc *FnCtx) applyContract(callee *ssa.Function, c *Contract, args []Val, bi
 			}
 		}
 		if len(used) == 0 {
-			post.assume(implies(cond, env.evalBool(e)))
+			t := env.evalBool(e)
+			post.assume(implies(cond, t))
+			if c.IsFunction && len(env.bound) == 0 {
+				// facts about the uninterpreted result term of a `function`: independent of the program state, kept as
+				// axioms so that they survive wherever the term is used later (nested spec calls, other states)
+				var reqs []string
+				for _, r := range c.Requires {
+					reqs = append(reqs, env.evalBool(r))
+				}
+				fc.axiom(implies(and(append([]string{cond}, reqs...)...), t))
+			}
 			continue
 		}
 		var binders []string
